@@ -126,7 +126,8 @@ def engine_part(ck: Check, cm, rnd):
                          {"W": W, "order": order})
             break
     # real executor, several numba thread counts and worker counts
-    nt0 = numba.get_num_threads()
+    nt_restore = numba.get_num_threads()
+    nt0 = numba.config.NUMBA_NUM_THREADS
     # including more workers than numba threads (W > nt)
     combos = [(1, 1), (4, 4), (5, 2), (16, 4), (16, nt0)] if ck.quick else [(w, t) for w in (1, 2, 3, 5, 16) for t in sorted({1, 2, 4, nt0})]
     try:
@@ -140,7 +141,7 @@ def engine_part(ck: Check, cm, rnd):
                     ck.violation("engine.solve|result-depends-on-workers-or-threads",
                                  f"real executor W={W}, numba threads={nt}: result differs from the single-worker run", {"W": W, "threads": nt})
     finally:
-        numba.set_num_threads(nt0)
+        numba.set_num_threads(nt_restore)
     ck.part("engine_binding", schedules_replayed=len(scheds), runs=n, threading_layer=numba.threading_layer())
     ck.sample({"schedule": scheds[-1], "rows": len(ref_rows)})
 
